@@ -34,8 +34,8 @@ ActiveSets(n, lb, ub) ==
 
 BoxLsq(M, w2, t, lb, ub) ==
   LET n == Len(M[1])
-      C == {LsqCand(M, w2, t, lb, ub, a) : a \in ActiveSets(n, lb, ub)}
-  IN CHOOSE c \in C : c.ok
+      a == CHOOSE a \in ActiveSets(n, lb, ub) : LsqCand(M, w2, t, lb, ub, a).ok
+  IN LsqCand(M, w2, t, lb, ub, a)
 
 BoxLsqExists(M, w2, t, lb, ub) ==
   \E a \in ActiveSets(Len(M[1]), lb, ub) : LsqCand(M, w2, t, lb, ub, a).ok
